@@ -229,20 +229,27 @@ def _barrier_kind(acc):
 
 def prop_lowering(r):
     names, _tys = TARGETS[r["target"]]
+    ctx = shared_ctx()
+    # the accelerator description of this module: the registered default, or (acc_cfg) another configuration under the same name
+    # (other numbers of streamers / dims / options, other gemmx array sizes): the lowering has to use the register map the module declares
+    acc_objs = {n: (build_accelerator(r["acc_cfg"][n]) if (r.get("acc_cfg") or {}).get(n) else ctx.get_acc(n)) for n in names}
     accs = []
     for n in names:
-        f, lf = acc_info(n)
+        if (r.get("acc_cfg") or {}).get(n):
+            op_ = acc_objs[n].generate_acc_op()
+            f, lf = list(op_.field_names()), list(op_.launch_field_names())
+        else:
+            f, lf = acc_info(n)
         accs.append([n, f, lf])
     rr = dict(r, accs=accs)
     built = G.build(rr)
     mod = parse(built.text, shared_ctx())
-    ctx = shared_ctx()
     from snaxc.accelerators.rocc import RoCCAccelerator
 
     acc_ops = {}
     first = mod.body.block.first_op
     for n in names:
-        acc = ctx.get_acc(n)
+        acc = acc_objs[n]
         aop = acc.generate_acc_op()
         mod.body.block.insert_op_before(aop, first)
         acc_ops[n] = (aop, isinstance(acc, RoCCAccelerator), _barrier_kind(acc))
@@ -358,6 +365,7 @@ def prop_lowering(r):
     cls += ["state_crosses_control_flow"] if crossing else []
     cls += ["partial_setup"] if partial else []
     cls += ["partial_unit_in_input"] if "partial_unit" in built.features else []
+    cls += ["non-default-accelerator-configuration"] if r.get("acc_cfg") else []
     cls += ["rocc_half_pair"] if half_pair else []
     cls += ["dedup"] if r.get("dedup", True) else ["no_dedup"]
     cls += ["overlap"] if r.get("overlap") else []
@@ -369,8 +377,22 @@ def prop_lowering(r):
 def lowering_strat(draw, tier):
     target = draw(st.sampled_from(["hwpe", "hwpe", "alu", "gemmx", "gemmini", "gemmini", "hwpe+alu"]))
     names, tys = TARGETS[target]
-    fields = [(n, acc_info(n)[0]) for n in names]
+    acc_cfg = {}
+    if target in ("alu", "gemmx") and draw(st.integers(0, 2)) == 0:
+        if target == "alu":
+            acc_cfg["snax_alu"] = dict(kind="alu", streamers=[draw(_streamer_spec(OPTS_REG, max_t=3)) for _ in range(draw(st.integers(2, 3)))])
+        else:
+            acc_cfg["snax_gemmx"] = dict(kind="gemmx", streamers=[draw(_streamer_spec(OPTS_REG, max_t=3)) for _ in range(5)],
+                                         m=draw(st.sampled_from([4, 8, 16])), n=draw(st.sampled_from([4, 6, 8, 16])), k=draw(st.sampled_from([4, 8])))
+    fields = []
+    for n in names:
+        if n in acc_cfg:
+            fields.append((n, list(build_accelerator(acc_cfg[n]).generate_acc_op().field_names())))
+        else:
+            fields.append((n, acc_info(n)[0]))
     r = draw(G.program(tier, max_accs=len(names), fields=fields))
+    if acc_cfg:
+        r["acc_cfg"] = acc_cfg
     # program() may have drawn fewer accelerators than the target names; keep consistent
     r["target"] = target if len(r["accs"]) == len(names) else {"hwpe+alu": "hwpe"}.get(target, target)
     r["ty"] = draw(st.sampled_from(tys))
